@@ -110,7 +110,29 @@ def check_c14(res, tier, rng):
     res.nontrivial.update(range(n_checked))
     res.add_sample('POWER_OF_FIVE_128[0] = 5^-342 -> (0xeef453d6923bd65a, 0x113faa2906a13b3f)')
     res.add_sample('pow_fast_path<f64>(22) in no_std+compact (bundled libm powd) -> 0x%x' % rn_ratio('f64', 10 ** 22, 1))
-    finish_verdict(res, broken, [], 'L1t dump vs definition')
+    corr = []
+    # the 32-bit-limb variant of the big power of five cannot be compiled here: read its literal from
+    # the source text and check it against 5^LARGE_POW5_STEP (data only, no compilation)
+    try:
+        src = strip_comments(open('/repo/src/table_small.rs').read())
+        m32 = re.search(r'pub\s+const\s+LARGE_POW5\s*:\s*\[\s*u32\s*;\s*(\d+)\s*\]\s*=\s*\[(.*?)\]\s*;', src, re.S)
+        mst = re.findall(r'pub\s+const\s+LARGE_POW5_STEP\s*:\s*u32\s*=\s*(\d+)\s*;', src)
+        if m32 and mst:
+            limbs = [int(x.replace('_', ''), 0) for x in re.findall(r'0x[0-9a-fA-F_]+|\d[\d_]*', m32.group(2))]
+            v32 = sum(x << (32 * i) for i, x in enumerate(limbs))
+            n_checked += 1
+            if len(limbs) != int(m32.group(1)) or any(x >> 32 for x in limbs) or all(v32 != 5 ** int(k) for k in mst):
+                res.violation('LARGE_POW5 (32-bit limbs, read from the source text of table_small.rs) is not 5^LARGE_POW5_STEP',
+                              {'what': 'u32 table literal', 'value': str(v32), 'steps': mst, 'cfg': 's', 'build': 'release'})
+        else:
+            corr.append({'case': 'the 32-bit LARGE_POW5 literal / LARGE_POW5_STEP could not be located in src/table_small.rs'})
+    except Exception as ex:
+        corr.append({'case': 'reading the 32-bit LARGE_POW5 literal failed: %s' % ex})
+    inv = config_inventory_check()
+    res.suite_stats['config_inventory'] = inv['summary']
+    if inv['diff']:
+        corr.append({'case': 'build-configuration inventory of /repo (cfg / cfg! / env! predicates, functional lines of Cargo.toml) differs from the one the dump configurations were chosen for: the dumped constants may not be the ones a user builds', 'diff': inv['diff'][:20]})
+    finish_verdict(res, broken, corr, 'L1t dump vs definition + build-configuration inventory')
 
 
 def bell_exp(k):
@@ -512,9 +534,47 @@ ALLOC_PAT = re.compile(r'\bVec\b|\bvec!|\bBox\b|\bString\b|format!|\bRc\b|\bArc\
 
 
 def strip_comments(txt):
-    txt = re.sub(r'//[^\n]*', '', txt)
-    txt = re.sub(r'/\*.*?\*/', '', txt, flags=re.S)
-    return txt
+    """remove // and (nested) /* */ comments, respecting string, raw-string, byte-string and char
+    literals (a `//` inside "https://.." is not a comment); string contents are kept"""
+    out = []
+    i, n = 0, len(txt)
+    while i < n:
+        c = txt[i]
+        two = txt[i:i + 2]
+        if two == '//':
+            j = txt.find('\n', i)
+            i = n if j < 0 else j
+        elif two == '/*':
+            depth, i = 1, i + 2
+            while i < n and depth:
+                if txt[i:i + 2] == '/*':
+                    depth += 1; i += 2
+                elif txt[i:i + 2] == '*/':
+                    depth -= 1; i += 2
+                else:
+                    i += 1
+            out.append(' ')
+        elif c == '"' or (c in 'rb' and re.match(r'(?:b?r#*"|b")', txt[i:i + 12]) and (i == 0 or not (txt[i - 1].isalnum() or txt[i - 1] == '_'))):
+            m = re.match(r'b?r(#*)"', txt[i:i + 12])
+            if m:                                   # raw string: ends at "###
+                end = '"' + m.group(1)
+                j = txt.find(end, i + len(m.group(0)))
+                j = n if j < 0 else j + len(end)
+            else:
+                j = i + (2 if c == 'b' else 1)
+                while j < n and txt[j] != '"':
+                    j += 2 if txt[j] == '\\' else 1
+                j += 1
+            out.append(txt[i:j]); i = j
+        elif c == "'":
+            m = re.match(r"'(?:\\.[^']*|[^'\\])'", txt[i:i + 12])   # char literal (not a lifetime)
+            if m:
+                out.append(m.group(0)); i += len(m.group(0))
+            else:
+                out.append(c); i += 1
+        else:
+            out.append(c); i += 1
+    return ''.join(out)
 
 
 def inventory(pattern, files=None):
@@ -553,6 +613,90 @@ def inventory_check(kind='unsafe'):
             diff.append('%s: expected %d, found %d' % (k, exp[k], cur[k]))
     return {'summary': {'sites': sum(cur.values()), 'distinct': len(cur)}, 'diff': diff, 'current': cur}
 
+
+
+# ---------------------------------------------------------------- build-configuration inventory
+CONFIG_HEADS = ('cfg_attr', 'cfg', 'option_env', 'env', 'include', 'include_str', 'include_bytes', 'compile_error', 'concat_idents')
+CONFIG_FILES_EXTRA = ['examples/simple.rs', 'fuzz/fuzz_targets/parse.rs', 'tests/integration_tests.rs',
+                      'etc/correctness/test-parse-golang/main.rs', 'etc/correctness/rng-tests/_common.rs',
+                      'etc/correctness/test-parse-random/_common.rs', 'etc/correctness/test-parse-unittests/main.rs']
+
+
+def _balanced(txt, i):
+    """txt[i] == '(' : return the index just after the matching ')'"""
+    depth = 0
+    for j in range(i, len(txt)):
+        if txt[j] == '(':
+            depth += 1
+        elif txt[j] == ')':
+            depth -= 1
+            if depth == 0:
+                return j + 1
+    return len(txt)
+
+
+def config_inventory():
+    """Everything that makes the compiled code depend on HOW it is built: every `cfg(..)`, `cfg_attr(..)`,
+    `cfg!(..)`, `env!`, `option_env!`, `include*!`, `compile_error!` in every source file of the crate
+    and in the shipped front-end copies (predicate text, white space removed), every line of
+    Cargo.toml outside comments, and the presence of build scripts / cargo configuration files.
+    The harness builds 8 feature combinations with the hook feature `verif` on; code that is
+    conditional on anything else - or on `verif` itself - is not what the harness observes."""
+    inv = []
+    root = '/repo'
+    files = ['src/' + f for f in sorted(os.listdir(root + '/src')) if f.endswith('.rs')] + CONFIG_FILES_EXTRA
+    for rel in files:
+        path = os.path.join(root, rel)
+        if not os.path.exists(path):
+            inv.append('%s::<missing>' % rel)
+            continue
+        code = strip_comments(open(path, errors='replace').read())
+        for m in re.finditer(r'\b(%s)\s*(!?)\s*\(' % '|'.join(CONFIG_HEADS), code):
+            j = _balanced(code, m.end() - 1)
+            inv.append('%s::%s%s%s' % (rel, m.group(1), m.group(2), re.sub(r'\s+', '', code[m.end() - 1:j])))
+        for m in re.finditer(r'\btarget_(?:arch|os|feature|pointer_width|endian|env|family|has_atomic)\b|\bdebug_assertions\b|\boverflow_checks\b', code):
+            inv.append('%s::token::%s' % (rel, m.group(0)))
+    ct = os.path.join(root, 'Cargo.toml')
+    if os.path.exists(ct):
+        META = ('version', 'authors', 'description', 'documentation', 'repository', 'readme', 'keywords', 'categories', 'license', 'homepage')
+        section, in_array = '', False
+        for l in open(ct):
+            l = re.sub(r'\s+', ' ', l.split('#')[0]).strip()
+            if not l:
+                continue
+            if in_array:                       # continuation lines of a descriptive array (exclude = [ ... ])
+                if l.startswith(']'):
+                    in_array = False
+                continue
+            if l.startswith('['):
+                section = l
+            key = l.split('=')[0].strip()
+            if section == '[package]' and (key in META or key == 'exclude'):
+                if key == 'exclude' and l.rstrip().endswith('['):
+                    in_array = True
+                continue
+            inv.append('Cargo.toml::%s' % l)
+    for extra in ('build.rs', '.cargo/config.toml', '.cargo/config', 'rust-toolchain', 'rust-toolchain.toml', 'fuzz/Cargo.toml'):
+        if os.path.exists(os.path.join(root, extra)) and extra != 'fuzz/Cargo.toml':
+            inv.append('file::%s' % extra)
+    return inv
+
+
+def config_inventory_check():
+    cur = Counter(config_inventory())
+    path = '%s/inventory.config.expected' % VERIF
+    exp = Counter()
+    if os.path.exists(path):
+        for l in open(path):
+            l = l.rstrip('\n')
+            if l:
+                n, item = l.split(' ', 1)
+                exp[item] = int(n)
+    diff = []
+    for k in sorted(set(cur) | set(exp)):
+        if cur[k] != exp[k]:
+            diff.append('%s: expected %d, found %d' % (k, exp[k], cur[k]))
+    return {'summary': {'items': sum(cur.values()), 'distinct': len(cur)}, 'diff': diff, 'current': cur}
 
 def sanitizer_runs(res, cases, rng):
     """thorough tier: the garbage stream under Miri on the real code (support, not proof)"""
